@@ -6,7 +6,7 @@ Property theorem for the model `Msp.scan` of `Scanner::scan` (msp.rs 194-276).
 driver on the implementation's answers. -/
 namespace Msp
 
-theorem mkIntervals_spec (seq : Array Nat) (score : List Nat → Nat) (k p m n : Nat)
+theorem mkIntervals_spec (seq : Array Compress.Base) (score : Compress.Seq → Nat) (k p m n : Nat)
     (hp : 1 ≤ p) (hpk : p ≤ k) (hm : m = n - 1 + k) (hn : 1 ≤ n) (hm32 : m < 2 ^ 32) (h16 : 2 * k - p ≤ 65535) :
     ∀ L : List (Nat × MinPos), FwdOK (fun q => score (window seq p q)) (k - p) n L →
       (∀ iv ∈ mkIntervals seq k p m L, IvValid seq (fun q => score (window seq p q)) k p iv) ∧
@@ -100,7 +100,7 @@ theorem mkIntervals_spec (seq : Array Nat) (score : List Nat → Nat) (k p m n :
 /-- **C07.** For every sequence, every score function, `1 ≤ p ≤ k ≤ |seq| < 2^32` and
     `2k - p ≤ 65535` (the guard forced by the `u16` length field, finding D7), the scan returns
     intervals that satisfy every clause of the property. -/
-theorem C07_scan_valid (seq : Array Nat) (score : List Nat → Nat) (k p : Nat)
+theorem C07_scan_valid (seq : Array Compress.Base) (score : Compress.Seq → Nat) (k p : Nat)
     (h₁ : 1 ≤ p) (h₂ : p ≤ k) (h₃ : k ≤ seq.size) (h₄ : seq.size < 2 ^ 32) (h₅ : 2 * k - p ≤ 65535) :
     ∃ ivs, scan seq score k p = some ivs ∧ HoldsC07 seq score k p ivs := by
   unfold scan
@@ -112,14 +112,14 @@ theorem C07_scan_valid (seq : Array Nat) (score : List Nat → Nat) (k p : Nat)
   exact ⟨by rw [this.2.2]; exact hf.2, this.1, this.2.1⟩
 
 /-- the Bool form that the driver evaluates -/
-theorem C07_scan_holds (seq : Array Nat) (score : List Nat → Nat) (k p : Nat)
+theorem C07_scan_holds (seq : Array Compress.Base) (score : Compress.Seq → Nat) (k p : Nat)
     (h₁ : 1 ≤ p) (h₂ : p ≤ k) (h₃ : k ≤ seq.size) (h₄ : seq.size < 2 ^ 32) (h₅ : 2 * k - p ≤ 65535) :
     ∃ ivs, scan seq score k p = some ivs ∧ holdsC07 seq score k p ivs = true := by
   obtain ⟨ivs, h, hh⟩ := C07_scan_valid seq score k p h₁ h₂ h₃ h₄ h₅
   exact ⟨ivs, h, by simp [holdsC07, hh]⟩
 
 /-- the assertions of `scan` are exactly the guard: outside it the scan refuses -/
-theorem C07_scan_guard (seq : Array Nat) (score : List Nat → Nat) (k p : Nat) :
+theorem C07_scan_guard (seq : Array Compress.Base) (score : Compress.Seq → Nat) (k p : Nat) :
     (scan seq score k p).isSome ↔ (k ≤ seq.size ∧ seq.size < 2 ^ 32 ∧ p ≤ k) := by
   simp only [scan, Gen.mspMaxLenLog]
   by_cases h : k ≤ seq.size ∧ seq.size < 2 ^ 32 ∧ p ≤ k <;> simp [h]
@@ -168,7 +168,7 @@ theorem starts_tile (sc : Nat → Nat) (k p m : Nat) (hk : 1 ≤ k) :
       congr 2; omega
 
 /-- Corollary of C07: the k-mer starts covered by the intervals are exactly `0, 1, …, m-k`, each once. -/
-theorem C07_every_kmer_once (seq : Array Nat) (score : List Nat → Nat) (k p : Nat)
+theorem C07_every_kmer_once (seq : Array Compress.Base) (score : Compress.Seq → Nat) (k p : Nat)
     (h₁ : 1 ≤ p) (h₂ : p ≤ k) (h₃ : k ≤ seq.size) (h₄ : seq.size < 2 ^ 32) (h₅ : 2 * k - p ≤ 65535) :
     ∃ ivs, scan seq score k p = some ivs ∧ kmerStarts k ivs = List.range (seq.size - k + 1) := by
   obtain ⟨ivs, h, hh⟩ := C07_scan_valid seq score k p h₁ h₂ h₃ h₄ h₅
@@ -177,8 +177,8 @@ theorem C07_every_kmer_once (seq : Array Nat) (score : List Nat → Nat) (k p : 
   rw [this, List.range_eq_range']; rfl
 
 /-- the hypotheses are satisfiable and the theorem says something on a concrete input -/
-example : holdsC07 #[0,1,2,3,0,0,1,3,2,2,1] (fun w => (w.foldl (· * 4 + ·) 0) % 3) 5 2
-    ((scan #[0,1,2,3,0,0,1,3,2,2,1] (fun w => (w.foldl (· * 4 + ·) 0) % 3) 5 2).getD []) = true := by decide
+example : holdsC07 #[0,1,2,3,0,0,1,3,2,2,1] (fun w => Compress.rank w % 3) 5 2
+    ((scan #[0,1,2,3,0,0,1,3,2,2,1] (fun w => Compress.rank w % 3) 5 2).getD []) = true := by decide
 
 /-- D7 (known finding): without the `u16` guard the reported length is truncated; shown on the
     model with the narrowing modulus scaled down would need a 65 536-base witness, so the model
